@@ -151,3 +151,31 @@ def local_pair_messages(rng, pair, compressed=False, mtv=33):
                                    dict(master_table_version=mtv, originating_centre=ce, originating_subcentre=su,
                                         local_table_version=lv)))
     return ids, out
+
+
+# same layout, different owners: uncompressed subsets whose expanded descriptor lists are identical while their
+# (fixed-length) data-present bitmaps select different elements - anything derived from the descriptor list alone
+# (a node tree, a set of matched nodes, back references) is then NOT reusable from one subset to the next
+SAME_LAYOUT_SHAPES = [
+    ('same-layout-222', [1001, 1002, 12001, 4024, 10004, 222000, 101005, 31031, 1031, 1032, 101000, 31001, 33007]),
+    ('same-layout-224', [12001, 4024, 10004, 13011, 12003, 224000, 101005, 31031, 8023, 101000, 31001, 224255]),
+    ('same-layout-223-232', [12001, 12003, 4024, 10004, 13011, 223000, 236000, 101005, 31031, 101000, 31001, 223255,
+                             232000, 237000, 101000, 31001, 232255]),
+    ('same-layout-two-qa-blocks', [12004, 12001, 10004, 1001, 1002, 222000, 101005, 31031, 101000, 31001, 33003, 235000,
+                                   12004, 12001, 10004, 1001, 1002, 222000, 101005, 31031, 101000, 31001, 33003]),
+]
+# 5-bit bitmaps with two 1-bits each; in P1 the 4th element, in P2 the 3rd is designated in every subset, but as the
+# 2nd/3rd/3rd resp. 3rd/2nd/2nd zero bit: its attribute sits at a different flat index from subset to subset
+SAME_LAYOUT_BITS = [[1, 1, 0, 0, 0, 1, 0, 0, 0, 1, 0, 0, 1, 0, 1], [0, 0, 0, 1, 1, 0, 1, 0, 0, 1, 1, 0, 0, 1, 0]]
+
+
+def same_layout_cases(rng, nsub=3, compressed=False, edition=4):
+    """yield (name, msg): consecutive subsets with identical expanded descriptors and different bitmaps"""
+    from mon.checks.c08 import AssignPolicy
+    B, D = tables(33)
+    for name, ids in SAME_LAYOUT_SHAPES:
+        for bits in SAME_LAYOUT_BITS:
+            try:
+                yield name, R.build_message(ids, B, D, AssignPolicy(rng, [1], bits, phase=rng.randint(0, 5)), nsub, compressed, edition)
+            except R.Unsupported:
+                continue
